@@ -130,22 +130,32 @@ def rfn_value(spec, a):
 
 
 # ------------------------------------------------------------------ building the real objects
-def build_inter(pairs):
-    from coba.primitives import Interaction
-    d = Interaction()
+def build_inter(pairs, ctor=False):
+    """the interaction as a plain `Interaction` dict, or (ctor) through coba's own constructors -- LoggedInteraction(context, action,
+    reward, probability, **rest) when the spec has context/action/reward, SimulatedInteraction(context, actions, rewards, **rest)
+    when it has context/actions/rewards -- whose arguments are then what the environment provides"""
+    from coba.primitives import Interaction, LoggedInteraction, SimulatedInteraction
+    vals = {}
     for k, v in pairs:
-        if k == "rewards" and isinstance(v, dict) and "rfn" in v:
-            d[k] = rfn_py(v["rfn"])
-        else:
-            d[k] = mk(v)
+        vals[k] = rfn_py(v["rfn"]) if (k == "rewards" and isinstance(v, dict) and "rfn" in v) else mk(v)
+    if ctor and all(k in vals for k in ("context", "action", "reward")):
+        rest = {k: v for k, v in vals.items() if k not in ("context", "action", "reward", "probability")}
+        if "probability" in vals:
+            return LoggedInteraction(vals["context"], vals["action"], vals["reward"], vals["probability"], **rest)
+        return LoggedInteraction(vals["context"], vals["action"], vals["reward"], **rest)
+    if ctor and all(k in vals for k in ("context", "actions", "rewards")):
+        rest = {k: v for k, v in vals.items() if k not in ("context", "actions", "rewards")}
+        return SimulatedInteraction(vals["context"], vals["actions"], vals["rewards"], **rest)
+    d = Interaction()
+    d.update(vals)
     return d
 
 
 class CaseEnv:
     """an Environment-like (only `read` and `params` are needed by SequentialCB / Experiment)"""
 
-    def __init__(self, inters, batch, as_gen):
-        self.inters, self.batch, self.as_gen = inters, batch, as_gen
+    def __init__(self, inters, batch, as_gen, ctor=False):
+        self.inters, self.batch, self.as_gen, self.ctor = inters, batch, as_gen, ctor
 
     @property
     def params(self):
@@ -153,7 +163,7 @@ class CaseEnv:
 
     def read(self):
         from coba.environments import Batch
-        it = [build_inter(p) for p in self.inters]
+        it = [build_inter(p, self.ctor) for p in self.inters]
         src = iter(it) if self.as_gen else it
         if self.batch:
             return Batch(self.batch).filter(src)
@@ -179,7 +189,14 @@ def episode_learner(case, k):
 
 def episode_case(case, k):
     cfg, env = episodes(case)[k]
-    return {"cfg": cfg, "env": env, "learner": episode_learner(case, k), "experiment_seed": case.get("experiment_seed")}
+    return {"cfg": cfg, "env": env, "learner": episode_learner(case, k), "experiment_seed": episode_seed(case, k)}
+
+
+def episode_seed(case, k):
+    """CobaContext.store['experiment_seed'] during evaluation k (`then` entries may change it)"""
+    if k > 0 and "experiment_seed" in case["then"][k - 1]:
+        return case["then"][k - 1]["experiment_seed"]
+    return case.get("experiment_seed")
 
 
 def effective_seed(case):
@@ -213,12 +230,12 @@ def run_history(case):
     CobaContext.logger = NullLogger()
     had_seed = "experiment_seed" in CobaContext.store
     old_seed = CobaContext.store.get("experiment_seed")
-    if case.get("experiment_seed") is not None:
-        CobaContext.store["experiment_seed"] = case["experiment_seed"]      # what Experiment.run(seed=…) leaves for the evaluators
-    else:
-        CobaContext.store.pop("experiment_seed", None)
     try:
         for k, (cfg, envd) in enumerate(episodes(case)):
+            if episode_seed(case, k) is not None:
+                CobaContext.store["experiment_seed"] = episode_seed(case, k)      # what Experiment.run(seed=…) leaves for the evaluators
+            else:
+                CobaContext.store.pop("experiment_seed", None)
             L = episode_learner(case, k)
             lrn, given = shared if (k == 0 or not case["then"][k - 1].get("learner")) else build(L)
             CobaContext.learning_info.clear()
@@ -231,7 +248,7 @@ def run_history(case):
                     ev = shared_ev
                 else:
                     ev = SequentialCB(record=list(cfg["record"]), learn=cfg["learn"], eval=cfg["eval"], seed=mk(L.get("pmf_seed")))
-                env = CaseEnv(envd["inters"], envd.get("batch"), envd.get("gen", False))
+                env = CaseEnv(envd["inters"], envd.get("batch"), envd.get("gen", False), envd.get("ctor", False))
                 rows = list(SafeEvaluator(ev).evaluate(env, given))
                 out["rows"] = [canon_row(r) for r in rows]
             except Exception as e:       # noqa: any exception is an observable here
@@ -999,7 +1016,10 @@ def gen_episode(rng, boundary=False, cfg_fixed=None):
             pairs.append(["reward", rng.choice([0, {"f": [0, 1]}]) if rng.chance(0.15) else gen_num(rng)])
         if has_prob:
             p = rng.choice(LOGGED_PROBS)
-            pairs.append(["probability", {"f": p} if p != [1, 1] or rng.chance(0.5) else 1])
+            if rng.chance(0.06):
+                pairs.append(["probability", rng.choice([0, {"f": [0, 1]}])])     # a logged propensity of exactly 0 is a value, not "absent"
+            else:
+                pairs.append(["probability", {"f": p} if p != [1, 1] or rng.chance(0.5) else 1])
         for k in extras:
             pairs.append([k, gen_any(rng)])
         if not any(k in ("context", "actions", "action") for k, _ in pairs):
@@ -1018,7 +1038,8 @@ def gen_episode(rng, boundary=False, cfg_fixed=None):
         else:   # the other direction: the first has one, the second (and maybe others) has none
             inters = [[kv for kv in p_ if kv[0] != "probability" or q == 0 or (q > 1 and rng.chance(0.6))] for q, p_ in enumerate(inters)]
     env = {"batch": batch, "gen": rng.chance(0.5), "inters": inters}
-
+    if rng.chance(0.4):
+        env["ctor"] = True        # built through LoggedInteraction(...) / SimulatedInteraction(...) where the keys allow
     return cfg, env, (astyle if has_actions else "int")
 
 
@@ -1039,7 +1060,7 @@ def hetero(env):
     return any(k != ks[0] for k in ks)
 
 
-def gen_learner(rng, cfgs, envs, allow_pmf=True, has_score=None):
+def gen_learner(rng, cfgs, envs, allow_pmf=True, has_score=None, force_pmf=False):
     """a scripted recording learner whose prediction format is legal for every environment it will meet"""
     styles = [env_style(e_) for e_ in envs]
     evs = [c_["eval"] for c_ in cfgs]
@@ -1048,7 +1069,7 @@ def gen_learner(rng, cfgs, envs, allow_pmf=True, has_score=None):
     fmts = [f for f in FMTS_ALL if all(f in fmts_for(st) for st in styles)]
     fmt = rng.choice(fmts)
     pmf_ok = allow_pmf and all(all("actions" in idict(p_) and idict(p_)["actions"]["l"] for p_ in e_["inters"]) for e_ in envs)
-    if pmf_ok and rng.chance(0.12):
+    if pmf_ok and (force_pmf or rng.chance(0.12)):
         fmt = rng.choice(["pmf", "pmfK"])      # the learner answers with {'pmf': [...]}: SafeLearner draws the action with CobaRandom(seed)
     kw_keys = rng.sample(["i", "tag", "z"], rng.choice([0, 1, 1, 2, 2])) if fmt.endswith("K") else []   # (a, {}) is legal
     script = []
@@ -1090,6 +1111,23 @@ def gen_case(rng, tier="quick", boundary=False):
             cfg = {"learn": rng.choice([None, "off"]), "eval": "ips", "record": rng.shuffle(rng.subset(["reward", "context", "time"], 0.6))}
             _, env, _ = gen_episode(rng, True, cfg_fixed=cfg)
             env = dict(env, inters=[[kv for kv in p_ if kv[0] not in ("actions", "rewards")] for p_ in env["inters"]])
+        def pmf_able(e_):
+            return bool(e_["inters"]) and all("actions" in idict(p_) and idict(p_)["actions"]["l"] for p_ in e_["inters"])
+        if rng.chance(0.35) and pmf_able(env):
+            # one SequentialCB(seed=own) object under a CHANGING experiment seed, PMF-answering learners: every evaluation must draw
+            # with CobaRandom(own seed if it is not None else the experiment seed of THAT evaluation)
+            own = rng.choice([None, None, None, 0, 7])
+            seeds = rng.shuffle([3, 5, 11, 0, None])
+            L = gen_learner(rng, [cfg], [env], force_pmf=True)
+            L["pmf_seed"] = own
+            then = []
+            for q in range(rng.choice([1, 1, 2])):
+                L2 = gen_learner(rng, [cfg], [env], force_pmf=True)
+                L2["pmf_seed"] = own
+                then.append({"cfg": cfg, "env": dict(env, gen=rng.chance(0.5)), "learner": L2, "experiment_seed": seeds[q + 1]})
+                if rng.chance(0.4):
+                    then[-1].pop("learner")          # the same learner object again
+            return {"cfg": cfg, "env": env, "learner": L, "then": then, "reuse_evaluator": True, "experiment_seed": seeds[0]}
         then, hs0 = [], rng.chance(0.5)
         L = gen_learner(rng, [cfg], [env], allow_pmf=False, has_score=hs0)
         for q in range(rng.choice([1, 1, 2])):
@@ -1207,6 +1245,22 @@ def corpus_cases():
             for fmt, batch in (("pmf", None), ("pmfK", 2)):
                 cs.append({"cfg": {"learn": "on", "eval": "on", "record": dflt}, "env": {"batch": batch, "gen": False, "inters": sim + sim},
                            "learner": dict(L(fmt=fmt, kw=("i",) if fmt == "pmfK" else (), script=pscript), pmf_seed=own), "experiment_seed": exp})
+    # logs built with LoggedInteraction(...): falsy-but-legal values are values (probability 0 / 0.0, reward 0, action 0, context 0 / '' / [])
+    lz = [[["context", c_], ["action", a_], ["reward", r_], ["probability", p_], ["actions", {"l": [0, "b", 2]}]]
+          for c_, a_, r_, p_ in ((0, 0, 0, 0), ("", "b", {"f": [0, 1]}, {"f": [0, 1]}), ({"l": []}, 2, 1, {"f": [1, 2]}), ({"f": [0, 1]}, 0, 2, 0))]
+    for learn, ev in (("off", None), ("off", "ips"), ("ips", "ips"), ("off", "on")):
+        for batch in (None, 2):
+            cs.append({"cfg": {"learn": learn, "eval": ev, "record": allrec if ev else ["context"]},
+                       "env": {"batch": batch, "gen": False, "ctor": True,
+                               "inters": lz if ev != "on" else [p_ + [["rewards", {"l": [0, 1, 0]}]] for p_ in lz]},
+                       "learner": L(fmt="dAP")})
+    # one SequentialCB(seed=None) object, the experiment seed changes between its evaluations, PMF learners
+    for own, seq in ((None, (3, 5)), (None, (5, 3, 11)), (0, (3, 5)), (None, (0, 7))):
+        mkL = lambda: dict(L(fmt="pmf", script=pscript), pmf_seed=own)
+        cs.append({"cfg": {"learn": "on", "eval": "on", "record": dflt}, "env": {"batch": None, "gen": False, "inters": sim + sim},
+                   "learner": mkL(), "reuse_evaluator": True, "experiment_seed": seq[0],
+                   "then": [{"cfg": {"learn": "on", "eval": "on", "record": dflt}, "env": {"batch": None, "gen": True, "inters": sim + sim},
+                             "learner": mkL(), "experiment_seed": e_} for e_ in seq[1:]]})
     # Lean example off_policy_probability_per_interaction_example (finding F8)
     add("off", None, [], [[["context", 1], ["action", 2], ["reward", 3]], [["context", 2], ["action", 3], ["reward", 4], ["probability", {"f": [1, 4]}]]])
     # tiny logged propensities with the learner playing the logged action (idx 0 of a one-entry script; logged action = actions[0])
